@@ -378,6 +378,44 @@ def run(ctx):
                 ctx.bad(R_dec, "%s|own-decoder" % path, f.where, "does not purely forward to the shared decoder (prims: %s)" % wire.flat(prims)[:60],
                         "this access path can decode a field differently from the others")
 
+    # every value shape the record writer can emit a string reference for is also visited when the string block is built
+    R_cov = ctx.rule("C17.string-collector-covers-nested-values", "the string-block builder visits Value::Array elements whenever write_value writes through them", floor=1)
+    wv = fns.get("wow_cdbc::writer::DbcWriter::write_value")
+    bsb = fns.get("wow_cdbc::writer::DbcWriter::build_string_block")
+    if wv is None or bsb is None:
+        ctx.bad(R_cov, "writer|missing", "-", "write_value or build_string_block not found", "anchor gone")
+    else:
+        def variants_in(fn_, depth=0):
+            out = set()
+            for x in hirq.walk(fn_.hir["body"]):
+                for p_ in ([x.get("pat")] if x.get("pat") else []) + [a_["pat"] for a_ in x.get("arms", []) if isinstance(a_, dict)]:
+                    for y in hirq.walk({"k": "_", "p": p_}) if False else [p_]:
+                        st_ = [y]
+                        while st_:
+                            q = st_.pop()
+                            if not isinstance(q, dict):
+                                continue
+                            d_ = (q.get("res") or {}).get("def", "")
+                            if "::Value::" in d_:
+                                out.add(d_.split("::")[-1])
+                            st_.extend(q.get("subs", []) or [])
+                            if q.get("sub"):
+                                st_.append(q["sub"])
+            if depth < 2:
+                for cc in hirq.calls(fn_.hir["body"]):
+                    g = next((g_ for g_ in c.fn_list if g_.hir and g_.kind != "Closure" and g_.path == cc.get("fn") and norm(g_.path).startswith("wow_cdbc::writer::") and g_ is not fn_), None)
+                    if g is not None:
+                        out |= variants_in(g, depth + 1)
+            return out
+        wvars, bvars = variants_in(wv), variants_in(bsb)
+        ctx.saw_fn(wv)
+        need = {v_ for v_ in ("StringRef", "Array") if v_ in wvars}
+        if need <= bvars:
+            ctx.ok(R_cov, {"write_value_handles": sorted(wvars), "string_collector_handles": sorted(bvars)})
+        else:
+            ctx.bad(R_cov, "build_string_block|missing-%s" % sorted(need - bvars)[0], bsb.where, "write_value writes string references inside %s, but the string-block builder only visits %s" % (sorted(need), sorted(bvars)),
+                    "strings held in array fields never reach the new string block: write_value misses them in the offset map and writes offset 0 — every array string parses back empty")
+
     # interning
     bs = fns.get("wow_cdbc::writer::DbcWriter::build_string_block")
     if bs is None:
@@ -385,6 +423,10 @@ def run(ctx):
     else:
         ctx.saw_fn(bs)
         body = bs.hir["body"]
+        # the insertion may live in a local helper the block builder delegates to (e.g. a recursive per-value collector)
+        helpers = [g for g in c.fn_list if g.hir and g.kind != "Closure" and any((cc.get("fn") or "") == g.path for cc in hirq.calls(body)) and norm(g.path).startswith("wow_cdbc::writer::")]
+        if helpers:
+            body = {"k": "block", "stmts": [body] + [h_.hir["body"] for h_ in helpers], "e": None}
         guarded = False
         for n in hirq.find(body, "if"):
             cr = hirq.render(n["c"])
